@@ -88,6 +88,8 @@ def run(rep, prog, tier):
     check_delegate_bounds(rep, prog, classes)
     check_material_table(rep, prog)
     check_flag_widths(rep, prog)
+    check_subpacket_header_identity(rep, prog)
+    check_integer_fields(rep, prog, classes)
     from rules import C18
     # EC point / MPI widths: what from_values builds is written fixed-width (ceil(bits / 8)), measured and re-parsed alike (finite-point
     # evaluation shared with C18.10, reported here as reader/writer agreement)
@@ -1016,6 +1018,104 @@ def check_flag_widths(rep, prog):
                       'null-padded to the width it was read with', where=wf.where, expected=want.hex(), found=out.hex(), scenario='width %d' % w)
     if n < 6:
         raise AnalysisError('flag subpackets: only %d writer evaluations' % n)
+
+
+# ------------------------------------------------------------------------------------------------ evaluated identities (C08.i / C08.c)
+def check_subpacket_header_identity(rep, prog):
+    """Parse-then-serialise of a subpacket header is the identity, critical bit included (evaluated with sa.ceval at type octets with and
+    without bit 7), and exactly the header octets are consumed."""
+    from sa.ceval import Evaluator, VBuf, Raised, NoEval, Diverged
+    E = Evaluator(prog)
+    SH = prog.cls('pgpy.packet.subpackets.types', 'Header')
+    if SH is None:
+        raise AnalysisError('subpacket Header vanished')
+    pf = SH.find_method('parse')
+    for t in (0x02, 0x82, 0x10, 0x90, 0x7f, 0xff, 0xa1):
+        data = bytes([5, t])
+        try:
+            h = E.new(SH)
+            buf = VBuf(data + b'\xaa\xbb')
+            E.method(h, 'parse', buf)
+            out, left = E.tobytes(E.method(h, '__bytearray__')), E.tobytes(buf)
+        except Raised as ex:
+            rep.violation('C08.i', 'subpacket Header parse/__bytearray__', 'type octet 0x%02x: raises %s' % (t, ex), 'a subpacket header with any type octet parses',
+                          where=pf.where, scenario='0x%02x' % t)
+            continue
+        except (NoEval, Diverged) as ex:
+            raise AnalysisError('subpacket Header outside the evaluator: %s' % ex)
+        rep.check(out == data and left == b'\xaa\xbb', 'C08.i', 'subpacket Header parse/__bytearray__', 'header %s re-serialises as %s (left in the buffer: %s)' % (data.hex(), out.hex(), left.hex()),
+                  'a parsed subpacket header serialises to the octets it was read from: the critical bit (bit 7 of the type octet) survives', where=pf.where,
+                  expected=data.hex(), found=out.hex(), scenario='0x%02x' % t)
+
+
+def check_integer_fields(rep, prog, classes):
+    """An integer field that `parse` reads with its own octets and hands to an integer setter keeps every value of its wire range (or the
+    packet is refused): the setter is evaluated (sa.ceval) at the ends and inside of the range, members and non-members of whatever
+    enumeration it converts to; one of the attributes it writes must hold the value received.  Fields that share their octets with
+    another field (sub-fields of one word) and the header classes are not plain integer fields."""
+    from sa.ceval import Evaluator, Obj, Raised, NoEval, Diverged
+    E = Evaluator(prog)
+
+    def ival(v):
+        return getattr(v, 'ival', v)
+    n = 0
+    for c, pf, wf in classes:
+        if pf.cls is not c or len(pf.params) < 2 or any(k.name in ('Header', '_Header') or k.name.endswith('Header') for k in c.mro()):
+            continue
+        p0, buf = pf.params[0], pf.params[1]
+        widths = {}
+        shared = set()
+        for s in reader_paths(prog, c, pf):
+            if s.raised is not None:
+                continue
+            reads, _ = codec.reader_sequence(s, buf, cls=c, recv=p0)
+            for r in reads:
+                if r.target and r.target.startswith(p0 + '.') and '.' not in r.target[len(p0) + 1:]:
+                    nm = r.target[len(p0) + 1:]
+                    if r.also:
+                        shared.add(nm)
+                        shared.update(a[len(p0) + 1:] for a in r.also if a.startswith(p0 + '.'))
+                    if r.kind == 'fixed' and codec._int(r.width) in (1, 2, 4):
+                        widths.setdefault(nm, set()).add(codec._int(r.width))
+        for nm, ws in sorted(widths.items()):
+            pr = c.find_prop(nm)
+            if pr is None or 'int' not in pr.setters or nm in shared or len(ws) != 1:
+                continue
+            w = list(ws)[0]
+            top = (1 << (8 * w)) - 1
+            bad, done = [], 0
+            results, names = [], set()
+            for v in sorted(set([0, 1, 12, 14, 110, 127, 128, 200, 255, top, top // 2 + 1])):
+                if v > top:
+                    continue
+                try:
+                    try:
+                        o = E.new(c)
+                    except (NoEval, Raised, Diverged):
+                        o = Obj(c, {})
+                    before = dict(o.attrs)
+                    E.set(o, nm, v)
+                    done += 1
+                    names.update(k for k, x in o.attrs.items() if k not in before or ival(before[k]) != ival(x) or type(before[k]) is not type(x))
+                    results.append((v, dict(o.attrs)))
+                except Raised:
+                    done += 1               # refused: the packet does not parse
+                except (NoEval, Diverged):
+                    done = 0
+                    break
+            for v, attrs in results:
+                got = [ival(attrs[k]) for k in sorted(names) if k in attrs]
+                if not any((not isinstance(g, bool)) and g == v for g in got):
+                    bad.append((v, got[:2]))
+            if not done:
+                continue
+            n += 1
+            rep.check(not bad, 'C08.c', '%s.%s' % (c.name, nm), 'received %s stored as %s' % (bad[0] if bad else 'every value', bad[0][1] if bad else 'received'),
+                      'a %d-octet integer field is changed on the way into the object (clamped, replaced by a placeholder): the packet re-serialises with '
+                      'another value than it was read with' % w, where=pr.setters['int'].where, expected='the value received (or a refusal)',
+                      found=['%d -> %s' % (v, g) for v, g in bad[:4]], scenario='integer field %s' % nm)
+    if n < 12:
+        raise AnalysisError('integer fields: only %d setters evaluated' % n)
 
 
 def _dedupe(seq):
